@@ -22,6 +22,8 @@ def run(tier):
     rep.rule('R10.1', 'observer: a Probe/Train is recorded iff six header bytes equal the own address; those offsets are the filter field', floor=1)
     rep.rule('R10.2', 'emitter: in every Probe/Train the filter field carries the descriptor\'s destination address', floor=6)
     rep.rule('R10.4', 'observer: a probe is discarded as already seen only if an entry with the same Ethernet source and the same real source exists', floor=1)
+    rep.rule('R10.5', 'observer: every recorded observation is carried by the next QueryResp(s): field mapping node -> wire, every announced descriptor serialised, '
+             'truncation keeps the unsent remainder, only reported observations are released', floor=40)
     rep.rule('R10.3', 'emitter: the field the observer records as source identity carries the emitter\'s own address; ToS/opcode reach the observer', floor=7)
     # ---- observer
     fs = FrameSetup(prog, mtu_ok=True)
@@ -104,6 +106,10 @@ def run(tier):
     if nframes == 0:
         rep.fail('R10.2', 'emitter|no-frames', 'the Emit cell emits no Probe/Train frame', function='parseEmit', file=fnf)
     rep.analysed.update({'observer_filter_offsets': filt, 'observer_identity_offsets': identity, 'emitted_frames_examined': nframes})
+    # ---- what B recorded is what B's next QueryResp carries: the record -> report obligations of the observation list,
+    # re-decided here because this property's statement ends at the QueryResp, not at the record
+    from .c07 import decide, RuleView
+    decide(RuleView(rep, {r: 'R10.5' for r in ('R07.a', 'R07.c', 'R07.e', 'R07.f', 'R07.g', 'R07.i')}), prog)
     return finish(rep, 'other',
                   'Decides the structural clause "emitter and observer agree on the frame format": the observer\'s filter field and recorded identity are extracted from the '
                   'interpreted Probe/Train cell, and every Probe/Train the interpreted Emit cell can transmit must carry the descriptor destination / own address at exactly those '
